@@ -191,7 +191,7 @@ func genC03(r *kit.RNG) *C03Scenario {
 	if r.Chance(0.35) {
 		// a validated denial cached under CD=0 must not answer the CD=1 partition
 		at := r.Intn(len(sc.Ops) + 1)
-		rec := []C03Op{{GapMs: 300, Cut: "deny", Wire: r.Chance(0.5)}, {GapMs: 100, Cut: "grow"},
+		rec := []C03Op{{GapMs: 300, Cut: "deny", Wire: r.Chance(0.5)}, {GapMs: 100, Cut: "dotted", Wire: r.Chance(0.5)}, {GapMs: 100, Cut: "grow"},
 			{GapMs: 200, Cut: "below", CD: true, Wire: true}, {GapMs: 200, Cut: "below", CD: true, Wire: false}, {GapMs: 200, Cut: "below", CD: r.Chance(0.5), Wire: r.Chance(0.5)}}
 		sc.Ops = append(sc.Ops[:at:at], append(rec, sc.Ops[at:]...)...)
 	}
@@ -293,7 +293,7 @@ func c03Run(sc *C03Scenario, tr *kit.Trace, res *kit.Result) {
 			{Name: "test.", Signed: true, Secure: true, Alg: dns.ED25519, KeyIdx: 2, NSNames: []string{"ns.test."}, Addrs: []string{"192.0.9.1"}},
 			{Name: "uq.test.", NSNames: []string{"ns.uq.test."}, Addrs: []string{"192.0.9.7"}},
 			{Name: "sq.test.", Signed: true, Secure: true, Alg: dns.ED25519, KeyIdx: 4, NSNames: []string{"ns.sq.test."}, Addrs: []string{"192.0.9.8"},
-				Records: []string{"keep.sq.test. 300 IN A 10.9.9.1", "zz.sq.test. 300 IN A 10.9.9.2"}},
+				Records: []string{"keep.sq.test. 300 IN A 10.9.9.1", "zz.sq.test. 300 IN A 10.9.9.2", "a\\.nx.sq.test. 300 IN A 10.9.9.7"}},
 		},
 		Cfg: world.CfgSpec{QueryTimeoutS: 5, TimeoutMs: 1500, CacheSize: 4096},
 	}
@@ -630,6 +630,19 @@ func c03Cut(g *world.Ing, op C03Op, i int, client netip.AddrPort, tr *kit.Trace,
 			z.Add("below.nx.sq.test. 300 IN A 10.9.9.9")
 		}
 		tr.Add("op %d cut/grow below.nx.sq.test. now exists", i)
+	case "dotted":
+		// a\.nx.sq.test. is one label "a.nx" directly under the apex: a sibling of nx.sq.test.,
+		// not a name below it, and the zone holds it
+		m := ask("a\\.nx.sq.test.")
+		if m == nil {
+			return true
+		}
+		tr.Add("op %d %s cut/dotted a\\.nx.sq.test. cd=%v -> %s an=%d", i, ingress, op.CD, dns.RcodeToString[m.Rcode], len(m.Answer))
+		tr.Shape(fmt.Sprintf("cutdot:%v:%s:%d", op.CD, ingress, m.Rcode))
+		if m.Rcode == dns.RcodeNameError {
+			res.Fail("C03/answer-of-another-question", "op %d (%s ingress): a\\.nx.sq.test./A (first label \"a.nx\", a sibling of nx.sq.test.) was answered NXDOMAIN although the zone holds the name: the subtree cut of nx.sq.test. was applied to a name that is not below it\n%s", i, ingress, m)
+			return false
+		}
 	case "below":
 		m := ask("below.nx.sq.test.")
 		if m == nil {
